@@ -249,15 +249,15 @@ def ptr_auth(res, prog, cu):
             res.violation('C04.8', 'C04.8|%s|by_addr' % arch, f, f.line, 'the module iterator is not modules.by_addr()')
 
 
-def cfi_walker(res, prog, cu):
-    """C04.9: the CFI / STACK WIN evaluators see the callee frame they are unwinding: the walker handed to the symbol file
+def cfi_walker(res, prog, cu, rid='C04.9'):
+    """C04.9 / C07.7: the CFI / STACK WIN evaluators see the callee frame they are unwinding: the walker handed to the symbol file
     is built field by field from that frame - the lookup address is the frame's `instruction` (return address minus the
     call adjustment, the same address the module was looked up with), not the return address itself - and its accessors
     return those fields."""
-    res.rule('C04.9', 0, floor=12, note='CfiStackWalker field table: lookup address, module, grand-callee facts, contexts, stack; accessors return the fields')
+    res.rule(rid, 0, floor=12, note='CfiStackWalker field table: lookup address, module, grand-callee facts, contexts, stack; accessors return the fields')
     fs = [f for f in cu.fns if re.search(r"^minidump_unwind::CfiStackWalker::<'a, C>::from_ctx_and_args$", f.qual)]
     if len(fs) != 1:
-        res.error('C04.9', 'CfiStackWalker::from_ctx_and_args not found')
+        res.error(rid, 'CfiStackWalker::from_ctx_and_args not found')
         return
     f = fs[0]
     want = {
@@ -277,11 +277,11 @@ def cfi_walker(res, prog, cu):
                 found = True
                 vals = dict(zip(s_['rv'].get('fields', []), s_['rv']['xs']))
                 for k, w in want.items():
-                    res.rule('C04.9', 1)
+                    res.rule(rid, 1)
                     got = show(f.expand(f.operand_tree(vals[k]))) if k in vals else '(missing)'
                     if got != w:
-                        res.violation('C04.9', 'C04.9|field|%s' % k, f, s_.get('line'), 'CfiStackWalker.%s is %s; expected %s' % (k, got[:160], w))
-                res.rule('C04.9', 1)
+                        res.violation(rid, rid + '|field|%s' % k, f, s_.get('line'), 'CfiStackWalker.%s is %s; expected %s' % (k, got[:160], w))
+                res.rule(rid, 1)
                 g = show(f.expand(f.operand_tree(vals.get('grand_callee_parameter_size')))) if 'grand_callee_parameter_size' in vals else ''
                 m = re.match(r"^\(std::option::Option::unwrap_or \(std::option::Option::and_then args\.grand_callee_frame \(closure (minidump_unwind::CfiStackWalker::<'a, C>::from_ctx_and_args::\{closure#\d+\})\)\) 0\)$", g)
                 okp = False
@@ -289,14 +289,14 @@ def cfi_walker(res, prog, cu):
                     h = cu.fn(m.group(1))
                     okp = h is not None and [show(h.expand(t2)) for (_, _, t2) in ret_assigns(h)] in (['f.parameter_size'], ['(* f).parameter_size'], ['_2.parameter_size'])
                 if not okp:
-                    res.violation('C04.9', 'C04.9|field|grand_callee_parameter_size', f, s_.get('line'), 'grand_callee_parameter_size is %s; expected grand_callee_frame.and_then(|f| f.parameter_size).unwrap_or(0)' % g[:160])
+                    res.violation(rid, rid + '|field|grand_callee_parameter_size', f, s_.get('line'), 'grand_callee_parameter_size is %s; expected grand_callee_frame.and_then(|f| f.parameter_size).unwrap_or(0)' % g[:160])
     if not found:
-        res.error('C04.9', 'no CfiStackWalker aggregate in from_ctx_and_args')
+        res.error(rid, 'no CfiStackWalker aggregate in from_ctx_and_args')
     for meth, fld in (('get_instruction', 'self.instruction'), ('has_grand_callee', 'self.has_grand_callee'), ('get_grand_callee_parameter_size', 'self.grand_callee_parameter_size')):
         gs = [g for g in cu.fns if g.qual == "<CfiStackWalker<'a, C> as breakpad_symbols::FrameWalker>::%s" % meth]
-        res.rule('C04.9', 1)
+        res.rule(rid, 1)
         if len(gs) != 1 or [show(gs[0].expand(t2)) for (_, _, t2) in ret_assigns(gs[0])] != [fld]:
-            res.violation('C04.9', 'C04.9|accessor|%s' % meth, gs[0] if gs else f, (gs[0] if gs else f).line, 'FrameWalker::%s does not return %s' % (meth, fld))
+            res.violation(rid, rid + '|accessor|%s' % meth, gs[0] if gs else f, (gs[0] if gs else f).line, 'FrameWalker::%s does not return %s' % (meth, fld))
 
 
 def run(tier, t0):
